@@ -358,6 +358,32 @@ func TimedPrograms() []*Program {
 		}
 		ps = append(ps, p)
 	}
+	// a trickle of small batches, each arriving well inside MaxBufferedTime of the previous one: the first batch must
+	// still be flushed MaxBufferedTime after IT was buffered, whatever arrives later - into a partition that has no
+	// buffer yet every time, into the same partition every time, and alternating
+	for _, mode := range []string{"newparts", "samepart", "alternate"} {
+		const ms, gap, n = 300, 170, 26
+		p := &Program{
+			Name:  "T-trickle-" + mode,
+			Cfg:   Cfg{IBS: 4, MBRows: 1000, MBTimeMs: ms, Partitions: true},
+			Timed: true,
+			Clock: true,
+		}
+		p.Phases = append(p.Phases, []Op{{Op: "start"}})
+		for k := 1; k <= n; k++ {
+			c := rowsCall(k, "unbuf", 1, 1)
+			switch mode {
+			case "newparts":
+				c.PartOff = k
+			case "alternate":
+				c.PartOff = (k % 2) * k
+			}
+			p.Calls = append(p.Calls, c)
+			p.Phases = append(p.Phases, []Op{calls("c1", k)}, []Op{{Op: "sleep", Ms: gap}})
+		}
+		p.Phases = append(p.Phases, []Op{{Op: "sleep", Ms: ms + 400}})
+		ps = append(ps, p)
+	}
 	return ps
 }
 
